@@ -112,16 +112,29 @@ def pairProps (g : Globals) (old new : List Stmt) (obs : List SExp) : Verdict :=
       match region with
       | some x => some x
       | none => if (r true).toBool then none else if (r false).toBool then some "referential-ordering" else none
-    (judge "C01" (ordering r01 (Scope.c01 g dbOld dbNew old new)) (r01 true)).and <|
-    (judge "C02" (ordering r02 (Scope.c02 g dbOld dbNew old new)) (r02 true)).and <|
-    (judge "C03" (Scope.c03 g dbOld dbNew old new) r03).and <|
+    -- a side written in statements the dialect's reader glue does not understand (recorded findings)
+    let readerRegion : Option String := (Scope.c05 g dbOld old).orElse fun _ => Scope.c05 g dbNew new
+    let readerRegion := if g.dialect == .mysql then none else readerRegion
+    let withReader := fun (r : Option String) => r.orElse fun _ => readerRegion
+    (judge "C01" (ordering r01 (withReader (Scope.c01 g dbOld dbNew old new))) (r01 true)).and <|
+    (judge "C02" (ordering r02 (withReader (Scope.c02 g dbOld dbNew old new))) (r02 true)).and <|
+    (judge "C03" (withReader (Scope.c03 g dbOld dbNew old new)) r03).and <|
     let r10 : Check := do
       let skip := isPanic (o "up") || isPanic (o "upCase") || isPanic (o "down") || isPanic (o "downCase")
       if skip then pure () else do
         c10CaseOnly (o "up") (o "upCase")
         c10CaseOnly (o "down") (o "downCase")
-    (judge "C13" (ordering r13 (Scope.c13 g dbOld dbNew old new)) (r13 true)).and <|
-    (judge "C10" none r10)
+    -- C09 on pairs: no observation of a pair of well-formed scripts is a recovered panic (sqlite: outside the recorded
+    -- reader region only)
+    let crash : Check :=
+      match ["errOld", "errNew", "stOld", "stNew", "hOld", "hNew", "errDiff", "stDiff", "up", "down", "up2", "upCase", "downCase"].find?
+          (fun k => isPanic (o k)) with
+      | some k => throw s!"panic in {k}: {o k}"
+      | none => pure ()
+    let region09 := (Scope.c09 g dbOld old).orElse fun _ => Scope.c09 g dbNew new
+    (judge "C13" (ordering r13 (withReader (Scope.c13 g dbOld dbNew old new))) (r13 true)).and <|
+    (judge "C10" none r10).and <|
+    (judge "C09" region09 crash)
   | _, _ => { items := ["illformed-input"] }
 
 def pairHandler : Handler
